@@ -522,6 +522,7 @@ pub fn run(ctx: &mut Ctx, replay: Option<&str>) {
     }
     attacks.extend(spelling_matrix(ctx));
     long_presentations(ctx);
+    set_patience(0);
     for chunk in attacks.chunks(4000) {
         let outs = run_attacks_out(ctx, chunk);
         for (a, o) in chunk.iter().zip(&outs) {
@@ -594,7 +595,8 @@ fn spelling_matrix(ctx: &mut Ctx) -> Vec<Attack> {
 /// key binding over LONG presentations (a large visible claim, large disclosures, many disclosures): the KB-JWT made for one
 /// disclosure list replayed with one more / one fewer / reordered / altered at the very end. Judged on the implementation alone
 fn long_presentations(ctx: &mut Ctx) {
-    let sizes: Vec<(usize, usize, usize)> = if ctx.tier == Tier::Quick { vec![(70_000, 40, 3), (10, 70_000, 3), (10, 30, 2500), (10, 10, 9000), (300_000, 300_000, 5)] } else { vec![(70_000, 40, 3), (10, 70_000, 3), (10, 30, 2500), (300_000, 300_000, 5), (66_000, 10, 1), (2_000_000, 10, 4), (10, 10, 20_000), (10, 10, 70_000)] };
+    set_patience(240);
+    let sizes: Vec<(usize, usize, usize)> = if ctx.tier == Tier::Quick { vec![(70_000, 40, 3), (10, 70_000, 3), (10, 30, 2500), (10, 10, 9000), (300_000, 300_000, 5)] } else { vec![(70_000, 40, 3), (10, 70_000, 3), (10, 30, 2500), (300_000, 300_000, 5), (66_000, 10, 1), (2_000_000, 10, 4), (10, 10, 20_000)] };
     for (si, (visible_len, value_len, n_disc)) in sizes.into_iter().enumerate() {
         let fmt = if si % 2 == 0 { Fmt::Compact } else { Fmt::Json };
         let holder = if si % 2 == 0 { KeyId::HolderEc } else { KeyId::HolderEd };
@@ -631,7 +633,12 @@ fn long_presentations(ctx: &mut Ctx) {
                 (Outcome::Ok(_), true) | (Outcome::Err(_), false) => ctx.nontrivial(&case),
                 (Outcome::Ok(_), false) => ctx.violation("oracle", "verify", &format!("a key-binding JWT made for another disclosure list was accepted on a long presentation ({})", name), case, r.out.class().into(), json!("Err")),
                 (Outcome::Err(_), true) => ctx.violation("oracle", "verify", "an honest key-bound long presentation was rejected", case, r.out.describe(), json!("Ok")),
-                _ => ctx.violation("oracle", "verify", "the verifier panicked or did not return on a long presentation", case, r.out.describe(), json!("Ok or Err")),
+                (Outcome::Timeout, _) => {
+                    // the duplicate-digest scan of the verifier is quadratic in the number of digests: at these sizes a slow answer is
+                    // no hang (C07 judges termination on inputs of a few KB)
+                    ctx.count("long_presentation.no_answer_within_the_watchdog(not judged)");
+                }
+                _ => ctx.violation("oracle", "verify", "the verifier panicked on a long presentation", case, r.out.describe(), json!("Ok or Err")),
             }
         }
     }
